@@ -31,7 +31,7 @@ def replay_iso4(pin, random):
         blk = obj.to_bytes()
     except Exception as e:
         return True, 'raised %s' % type(e).__name__, 'C13/iso4-exception'
-    want = binascii.unhexlify(('4%x%s' % (len(pin), pin)).ljust(16, 'a') + '%016x' % obj.random_value)
+    want = binascii.unhexlify(('4%x%s' % (len(pin), pin)).ljust(16, 'a') + '%016x' % (random if random else obj.random_value))
     if blk != want or (random and obj.random_value != random):
         return True, 'PIN %s -> block %s, ISO format 4 gives %s' % (pin, blk.hex(), want.hex()), 'C13/iso4-layout/len%d' % (len(pin) >= 10)
     try:
